@@ -14,7 +14,7 @@ func newGenCommand$1$1 returns (err)
   // success means the generated document WAS printed (one Fprint of exactly that text), a generator error is returned
   ghost after call 1 ToMan { let doc := #ret0; let gerr := #ret1 }
   ensures @prints-the-document [C17] err == nil ==> gerr == nil && prLen == old(prLen) + 1 && PrintedStr(old(prLen), 0, doc)
-  modifies ghost(bufSticky, sinkFailed, sinkPend, prLen, prSink, prArg, prArgs)
+  modifies ghost(bufSticky, sinkFailed, sinkPend, prLen, prSink, prArg, prArgs, prFmt)
   ensures @reports-loss [C17] err == nil ==> sinkFailed[payload(o.ReporterConfig.Output)] == old(sinkFailed[payload(o.ReporterConfig.Output)])
 
 func newGenCommand$2$1 returns (err)
@@ -23,6 +23,6 @@ func newGenCommand$2$1 returns (err)
   // success means the generated document WAS printed (one Fprint of exactly that text), a generator error is returned
   ghost after call 1 ToMarkdown { let doc := #ret0; let gerr := #ret1 }
   ensures @prints-the-document [C17] err == nil ==> gerr == nil && prLen == old(prLen) + 1 && PrintedStr(old(prLen), 0, doc)
-  modifies ghost(bufSticky, sinkFailed, sinkPend, prLen, prSink, prArg, prArgs)
+  modifies ghost(bufSticky, sinkFailed, sinkPend, prLen, prSink, prArg, prArgs, prFmt)
   ensures @reports-loss [C17] err == nil ==> sinkFailed[payload(o.ReporterConfig.Output)] == old(sinkFailed[payload(o.ReporterConfig.Output)])
 @*/
